@@ -364,7 +364,7 @@ def check_case(ctx, case):
             probs.append(('violation', 'chisquare', '%r vs %r' % (res.chisquare, chisq)))
         if res.dof != dof:
             probs.append(('violation', 'dof', '%r vs points - parameters + priors = %r' % (res.dof, dof)))
-        if kw.get('expected_chisquare'):
+        if kw.get('expected_chisquare') and dof > 0:      # (with as many parameters as points both chisquare and its expectation vanish)
             # chisquare / expected chisquare (arXiv:2209.14188): E = tr[(1 - P) W C W], W = diag(1/dy), C the covariance of the data,
             # P the projector on the column space of W J (J the design matrix, rows stacked by sorted key)
             kk = sorted(keys) if case['combined'] else keys[:1]
